@@ -26,10 +26,30 @@ def _protocol(f):
   return ups[0], [astu.src(e) for e in ups[0].targets[0].elts], aps[0], astu.src(aps[0].targets[0])
 
 
+def _hand_rolled_apply(f):
+  """The tree-map call that adds the updates returned by self.tx.update onto the params when optax.apply_updates is not used."""
+  ups = [n for n in astu.body_walk(f.node) if isinstance(n, ast.Assign) and isinstance(n.value, ast.Call) and astu.src(n.value.func) == 'self.tx.update']
+  if len(ups) != 1 or not isinstance(ups[0].targets[0], ast.Tuple) or not ups[0].targets[0].elts or not isinstance(ups[0].targets[0].elts[0], ast.Name):
+    return None
+  if any(astu.call_tail(x) == 'apply_updates' for x in astu.func_calls(f)):
+    return None
+  upd = ups[0].targets[0].elts[0].id
+  for x in astu.func_calls(f):
+    if astu.call_tail(x) in ('tree_map', 'map') and 'tree' in (astu.call_name(x) or '') and x.args and isinstance(x.args[0], ast.Lambda):
+      if any(isinstance(a, ast.Name) and a.id == upd for a in x.args[1:]) and any(isinstance(n, ast.BinOp) and isinstance(n.op, (ast.Add, ast.Sub)) for n in ast.walk(x.args[0].body)):
+        return x
+  return None
+
+
 @rule('C17.R1', 'K7', 9, 'tx.update(grads, current opt state, current params) -> apply_updates(same params, updates) -> both results stored')
 def r1(R, repo):
   for rel, q in SIBLINGS:
     f = repo.func(rel, q)
+    hand = _hand_rolled_apply(f)
+    if hand is not None:
+      R.fail(key_of(f, 'apply_updates(the same params, the updates from tx.update)'), (f, hand),
+             '%s applies the optax updates by hand (`%s`) instead of optax.apply_updates: apply_updates also casts the result back to each parameter\'s dtype and passes None leaves through, so the hand-written sum differs from the optax loop (e.g. bfloat16 params with float32 accumulators)' % (q, astu.short(hand)))
+      continue
     up, (updates, new_state), ap, new_params = _protocol(f)
     args = [astu.src(a) for a in up.value.args]
     if len(args) != 3:
